@@ -509,7 +509,17 @@ class Lemmas:
             if norm_name(it["name"]) == "expr::FUNC_TABLE" and "hir" in it:
                 try:
                     es = it["hir"]["fields"]["entries"]["e"]["elems"]
-                    return [(e["fields"]["name"]["v"], e["fields"]["number_of_args"]["v"], norm_name(e["fields"]["f"]["path"])) for e in es]
+                    out = []
+                    for e in es:
+                        # fields by role, not by name (a private field may be renamed): the one string is the function's name,
+                        # the one integer its arity, the one path the implementing function
+                        by = {}
+                        for fv in e["fields"].values():
+                            by.setdefault(fv.get("h"), []).append(fv)
+                        if not (len(by.get("str", [])) == 1 and len(by.get("int", [])) == 1 and len(by.get("path", [])) == 1):
+                            return None
+                        out.append((by["str"][0]["v"], by["int"][0]["v"], norm_name(by["path"][0]["path"])))
+                    return out
                 except (KeyError, TypeError):
                     return None
         return None
@@ -556,7 +566,7 @@ class Lemmas:
             for bb, t in ev.calls():
                 if callee_name(t)[0] == "<indirect>":
                     g = guards_at(P, ev, bb)
-                    good = any(x[0] == "Eq" and ".number_of_args" in x[1] and x[2].startswith("Vec::len(") for x in g)
+                    good = any(x[0] == "Eq" and ".number_of_args" in x[1] and re.match(r"(Vec::len|\[T\]::len|len)\(", x[2]) for x in g)   # the argument list as a Vec or as a slice
                     fnt = canon(P.operand_term(ev, bb, t["func"]))
                     ok &= self._ob("FUNC", "dispatch-guarded", good and ".f" in fnt, "indirect call of entry.f dominated by the arity test", "indirect call `%s` not dominated by an arity test" % fnt)
         return ok
@@ -1419,7 +1429,7 @@ def r_func(P, L, s, d):
             return (L.need("FUNC"), "Expr::Func.name was looked up successfully in the same constant table when the node was built; lemma FUNC")
         if s.kind == "macro" and s.construct == "panic!":
             arm = [a for a in d["arms"] if "cond" in a]
-            if arm and re.fullmatch(r"Ne\(Option::expect\(FuncTable::get\(.*, \(self as Func\)\.name\), '[^']*'\)\.number_of_args, Vec::len\(\(self as Func\)\.args\)\)", canon(arm[0]["cond"])):
+            if arm and re.fullmatch(r"Ne\(Option::expect\(FuncTable::get\(.*, \(self as Func\)\.name\), '[^']*'\)\.number_of_args, (?:Vec::len|\[T\]::len|len)\((?:Deref::deref\()?\(self as Func\)\.args\)?\)\)", canon(arm[0]["cond"])):
                 return (L.need("FUNC"), "arity mismatch excluded at construction of Expr::Func; lemma FUNC")
     return None
 
